@@ -85,6 +85,11 @@ pub trait Family {
     fn is_shallow(&self, _i: usize) -> bool {
         false
     }
+    /// false for indices whose program already belongs to another family of the same run (kept disjoint so that
+    /// every evaluated program is a distinct case)
+    fn include(&self, _i: usize) -> bool {
+        true
+    }
 }
 
 /// atoms: none, eps, all and the given region ranges
@@ -131,13 +136,32 @@ pub struct LevelFamily {
     pub l1: Vec<Rc<P>>,
     pub uops: Vec<UOp>,
     pub lim: usize,
+    /// when set: only programs that use one of these operators (or one of these atoms) are part of the family
+    pub only_with: Option<(Vec<UOp>, Vec<(u8, u8)>)>,
+}
+
+fn uses(p: &P, ops: &[UOp], atoms: &[(u8, u8)]) -> bool {
+    let u = |a: &Rc<P>| uses(a, ops, atoms);
+    match p {
+        P::Rng(l, h) => atoms.contains(&(*l, *h)),
+        P::Comp(a) => ops.contains(&UOp::Comp) || u(a),
+        P::Star(a) => ops.contains(&UOp::Star) || u(a),
+        P::Plus(a) => ops.contains(&UOp::Plus) || u(a),
+        P::Opt(a) => ops.contains(&UOp::Opt) || u(a),
+        P::Pow(a, k) => ops.contains(&UOp::Pow(*k)) || u(a),
+        P::Loop(a, i, j) => ops.contains(&UOp::Loop(*i, *j)) || u(a),
+        P::LoopInf(a, i) => ops.contains(&UOp::LoopInf(*i)) || u(a),
+        P::MkLoop(a, i, j) => ops.contains(&UOp::MkLoop(*i, *j)) || u(a),
+        P::Concat(a, b) | P::Union(a, b) | P::Inter(a, b) | P::Diff(a, b) => u(a) || u(b),
+        _ => false,
+    }
 }
 
 impl LevelFamily {
     pub fn new(name: &str, u: Universe, ranges: &[(u8, u8)], uops: Vec<UOp>, lim: usize) -> LevelFamily {
         let l1 = level1(&atoms(ranges), &uops);
         let lim = lim.min(l1.len());
-        LevelFamily { name: name.to_string(), u, l1, uops, lim }
+        LevelFamily { name: name.to_string(), u, l1, uops, lim, only_with: None }
     }
 }
 
@@ -168,6 +192,12 @@ impl Family for LevelFamily {
     }
     fn is_shallow(&self, i: usize) -> bool {
         i < self.l1.len()
+    }
+    fn include(&self, i: usize) -> bool {
+        match &self.only_with {
+            None => true,
+            Some((ops, atoms)) => uses(&self.get(i), ops, atoms),
+        }
     }
 }
 
@@ -263,6 +293,13 @@ pub fn core_quick() -> LevelFamily {
 pub fn core_thorough() -> LevelFamily {
     LevelFamily::new("core-level2/u0 (12 atoms, 12 unary, 4 binary)", Universe::new(0), &THOROUGH_RANGES, uops_thorough(), usize::MAX)
 }
+/// the programs of core_thorough that use one of the four extra operators (the others are part of the wide family)
+pub fn core_thorough_extra() -> LevelFamily {
+    let mut f = core_thorough();
+    f.name = "core-level2/u0 (12 atoms, 12 unary ops): the programs using pow 3, loop 2 3, pow 0 or the ill-formed loop 2 1".into();
+    f.only_with = Some((vec![UOp::Pow(3), UOp::Loop(2, 3), UOp::Pow(0), UOp::Loop(2, 1)], vec![]));
+    f
+}
 pub fn core_wide() -> LevelFamily {
     LevelFamily::new("wide-level2/u0 (all 21 region ranges, 8 unary, 4 binary)", Universe::new(0), &all_ranges(6), uops_quick(), usize::MAX)
 }
@@ -304,14 +341,21 @@ pub fn side_family(thorough: bool) -> ListFamily {
         }
     }
     for (l, h) in all_ranges(6) {
-        side.push(Rc::new(P::Rng(l, h)));
+        // the six ranges of the core pool are not repeated here
+        if !QUICK_RANGES.contains(&(l, h)) {
+            side.push(Rc::new(P::Rng(l, h)));
+        }
     }
     let n_atoms = side.len();
     // every loop/power operator over level-1 bodies
     let nbody = if thorough { l1.len() } else { 150 };
+    let core_ops = uops_quick();
     for body in l1.iter().take(nbody) {
         for op in uops_all_loops() {
-            side.push(Rc::new(apply_u(op, body)));
+            // pow 2, loop 1 2, loop 0 2 and the unbounded loop from 2 over level-1 bodies are core level-2 programs
+            if !core_ops.contains(&op) {
+                side.push(Rc::new(apply_u(op, body)));
+            }
         }
     }
     // n-ary lists of length 0..3
@@ -431,7 +475,8 @@ pub fn level3_slice(thorough: bool) -> BinaryWith {
     }
     let n1 = q.l1.len();
     let nu = q.uops.len();
-    let base = LevelFamily { name: "level 1 + unary level 2 of the quick core".into(), u: q.u.clone(), l1: q.l1.clone(), uops: q.uops.clone(), lim: 0 };
+    let base = LevelFamily { name: "unary level 2 of the quick core".into(), u: q.u.clone(), l1: q.l1.clone(), uops: q.uops.clone(), lim: 0, only_with: None };
     debug_assert_eq!(base.len(), n1 + n1 * nu);
-    BinaryWith { small, base: Box::new(base), stride: 1, offset: 0 }
+    // offset n1: binary operators over two level-1 terms are level-2 programs of the core pool already
+    BinaryWith { small, base: Box::new(base), stride: 1, offset: n1 }
 }
